@@ -364,6 +364,70 @@ func runC09(ctx *report.Ctx) {
 		}
 		return ""
 	}})
+	// R2: the range of a draw does not depend on what was drawn, or refused, before: E1, a refused call, E1 again, E2, E1 again
+	// in one dialogue, 8 rounds (the node is entered again through a jump)
+	refusedDraws := []string{"random_range(-3, 1 / 0)", "random_range(5, 1)", "dice(0)", "random_range(0 / 0, 2)", "dice(1 / 0)", "random_range(-7, 9000000000000000000000)"}
+	part(ctx, "R2", -1, func(c *explore.Chooser) {
+		e1 := rcases[c.Choose(len(rcases), "first")]
+		if !c.Mine() {
+			return
+		}
+		bad := refusedDraws[c.Choose(len(refusedDraws), "refused")]
+		e2 := rcases[c.Choose(len(rcases), "second")]
+		seed := []string{"abc", "7"}[c.Choose(2, "seed")]
+		src := "title: A\n---\n<<call cap(1, " + e1.expr + ")>>\n<<call cap(0, " + bad + ")>>\n<<call cap(1, " + e1.expr + ")>>\n<<call cap(2, " + e2.expr + ")>>\n<<call cap(1, " + e1.expr + ")>>\nround\n<<jump A>>\n===\n"
+		w := fmt.Sprintf("seed=%q %s, then %s (refused), then %s, %s, %s, 8 rounds", seed, e1.expr, bad, e1.expr, e2.expr, e1.expr)
+		ctx.Current("R2: " + w)
+		r, err, pan := yc.NewReal([]string{src}, seed, nil)
+		if err != nil || pan != "" {
+			ctx.HarnessError("C09: harness script does not load: %v %s\n%s", err, pan, src)
+			return
+		}
+		problem := ""
+		n := 0
+		r.DR.AddFunction("cap", func(args []*variable.Value) (*variable.Value, error) {
+			n++
+			if len(args) != 2 || args[0] == nil || args[0].Number == nil || args[1] == nil || args[1].Number == nil {
+				problem = "cap received something that is not a number"
+				return nil, nil
+			}
+			var m string
+			switch *args[0].Number {
+			case 0:
+				m = "the out-of-domain call returned a value instead of an error"
+			case 1:
+				m = e1.check(*args[1].Number)
+			case 2:
+				m = e2.check(*args[1].Number)
+			}
+			if m != "" && problem == "" {
+				problem = fmt.Sprintf("draw %d: %s", n, m)
+			}
+			return nil, nil
+		})
+		ctx.AddEvals(1, 1)
+		ctx.AddStates(1)
+		for round := 0; round < 8 && problem == ""; round++ {
+			ro := r.Next(0) // stops at the refused call
+			ctx.AddTransitions(1)
+			if ro.Panic != "" || ro.K != yc.OError {
+				problem = fmt.Sprintf("round %d: the out-of-domain call %s must be an error; got %s", round+1, bad, ro.String())
+				break
+			}
+			ro = r.Next(0)
+			ctx.AddTransitions(1)
+			if ro.Panic != "" || ro.K != yc.OLine || ro.Text != "round" {
+				problem = fmt.Sprintf("round %d: after the refused call the draws that follow did not complete: %s", round+1, ro.String())
+			}
+		}
+		if problem == "" && n != 8*4 {
+			problem = fmt.Sprintf("%d draws captured, %d expected", n, 8*4)
+		}
+		ctx.Outcome(fmt.Sprintf("%s|%s|%v", e1.expr, bad, problem == ""))
+		if problem != "" {
+			ctx.Violation(report.Violation{Clause: "range", Witness: w, Detail: problem, Choices: c.Choices(), Part: "R2", Extra: map[string]any{"scripts": []string{src}, "seed": seed}})
+		}
+	})
 	part(ctx, "R", -1, func(c *explore.Chooser) {
 		rc := rcases[c.Choose(len(rcases), "expr")]
 		si := c.Choose(len(rangeSeeds), "seed")
